@@ -1,5 +1,5 @@
 """C01 - decompile then recompile reproduces the binary bit-for-bit."""
-import json, os, shutil, itertools
+import json, os, shutil, itertools, struct, re
 from .. import core, formats, corpus
 
 META = {
@@ -83,7 +83,7 @@ def roundtrip(ctx, entry, dopts, width, mapfile, tables):
     d = ctx.cli(dj)
     replay = {'entry': {k: entry.get(k) for k in ('name', 'tool', 'game', 'msg_mode', 'origin')}, 'data_hex': entry['data'].hex(), 'dopts': dopts, 'width': width,
               'mapfile': mapfile, 'source_text': entry.get('text')}
-    tag = '%s%s' % (tool, '-' + mm if mm else '')
+    tag = entry.get('sigtag') or '%s%s' % (tool, '-' + mm if mm else '')
     ctx.evaluations += 1
     if 'panic' in d or 'abort' in d:
         ctx.count('decompile_crashes (reported by C16)'); ctx.inconcl('decompile crashed (C16 reports it)'); return
@@ -112,7 +112,7 @@ def roundtrip(ctx, entry, dopts, width, mapfile, tables):
     b2 = ctx.read(o_path)
     if b2 != entry['data']:
         where = next((i for i in range(min(len(b2), len(entry['data']))) if b2[i] != entry['data'][i]), min(len(b2), len(entry['data'])))
-        ctx.violation('roundtrip:%s:bytes-differ:%s' % (tag, classify_diff(entry, b2, where, replay['decompiled'])), 'first difference at byte %d (len %d vs %d)' % (where, len(entry['data']), len(b2)), replay); return
+        ctx.violation('roundtrip:%s:bytes-differ:%s' % (tag, 'mask-or-blob' if entry.get('sigtag') else classify_diff(entry, b2, where, replay['decompiled'])), 'first difference at byte %d (len %d vs %d)' % (where, len(entry['data']), len(b2)), replay); return
     ctx.count('roundtrips_identical')
     ctx.seen('option_sets_seen', ''.join('1' if dopts.get(k, True) else '0' for k in OPTS))
     ctx.seen('formats_seen', tag); ctx.seen('games_seen', tag + ':' + game); ctx.seen('widths_seen', width)
@@ -187,6 +187,33 @@ def classify_diff(entry, b2, where, decompiled=''):
         return 'unreferenced-script-dropped'
     return tag
 
+def masked_blob_entry(ctx, r):
+    """A file whose instructions carry parameter-mask bits on parameters that can only ever be immediates (`s(imm)`, script ids,
+    bits past the last parameter): `ins_N(@mask=M, @blob="..")` is something a compile command emits, so it is in the quantifier."""
+    from . import c03
+    lg = r.pick([l for l in c03.INSTR_LANGS if l['mask_bits']]); game = r.pick(lg['games'])
+    sig = r.pick(['S(imm)S', 's(imm)--S', 'SS(imm)', 'S(imm)', 'SSS', 'f(imm)S', 'Sf(imm)', 'S(imm)S(imm)'] + (['NS', 'SN'] if lg['tool'] == 'anm' else []))
+    npar = len(sig.replace('(imm)', '').replace('-', ''))
+    lines = []; cls = set()
+    kinds = re.findall(r'[A-Za-z](?:\(imm\))?', sig.replace('-', ''))
+    for _ in range(r.randint(1, 4)):
+        m = r.pick([0, 1, 2, 3, 1 << npar, (1 << npar) - 1, r.randint(0, 7), r.randint(0, 65535)])
+        blob = b''.join(struct.pack('<i', r.pick([0, 0x3f800000, 0x40a00000] if k[0] == 'f' else [0, 1, 5, 7, 10000, -1])) for k in kinds)   # (no NaN payloads: that loss is a separate, recorded finding)
+        lines.append('ins_900(@mask=%d, @blob="%s");' % (m, blob.hex()))
+        if m >> npar: cls.add('bit-past-last-param')
+        if any((m >> i) & 1 and ('imm' in k or k == 'N') for i, k in enumerate(kinds)): cls.add('bit-on-immediate-only-param')
+    cls = '+'.join(sorted(cls)) or 'plain'
+    mapfile = '%s\n!ins_signatures\n900 %s\n' % (lg['maphdr'].split('\n')[0], sig)
+    text = lg['wrap'](game, '\n'.join(lines))
+    src = ctx.write('mb.txt', text); out = os.path.join(ctx.dir, 'mb.bin')
+    if os.path.exists(out): os.unlink(out)
+    c = ctx.cli({'tool': lg['tool'], 'cmd': 'compile', 'game': game, 'in': src, 'out': out, 'maps': [ctx.write('mb.map', mapfile)]})
+    if not c.get('ok') or 'panic' in c or 'abort' in c: ctx.count('masked_blob_not_compiled'); return None, None
+    data = ctx.read(out)
+    if data is None: return None, None
+    ctx.count('masked_blob_files'); ctx.seen('masked_blob_sigs', '%s %s' % (lg['key'], sig))
+    return {'tool': lg['tool'], 'game': game, 'data': data, 'origin': 'compiled', 'name': 'masked-blob:%s:%s:%s' % (cls, lg['key'], sig), 'sigtag': 'masked-blob:%s:%s' % (cls, lg['key']), 'text': text, 'compile_diag': c.get('diag', '')}, mapfile
+
 def run_shard(ctx):
     r = ctx.rng
     tables = formats.SigTables(ctx)
@@ -202,6 +229,9 @@ def run_shard(ctx):
     done = len(jobs)
     widths = WIDTHS_Q if ctx.tier == 'quick' else WIDTHS_Q + [3, 8, 99]
     while done < n:
+        for _ in range(6):
+            e, m = masked_blob_entry(ctx, r)
+            if e: roundtrip(ctx, e, {kk: False for kk in OPTS if r.chance(0.3)}, r.pick(widths), m, tables); done += 1
         for e in corpus.compile_generated(ctx, tables, 8, want_text=True):
             k = 4 if ctx.tier == 'quick' else 10
             for _ in range(k):
